@@ -22,7 +22,7 @@ PROPS = {
              "and calldata) reported and resolved in the next block, some left unresolved; every seventh chain runs past height "
              "128. -nrand counts proof requests (5 per chain): single result, request count, multi-result, at the tip or at an "
              "earlier committed height, plus inputs without a proof (unknown/unresolved id, height beyond the tip or <= 2). "
-             "evaluations = recorded lines; non-trivial = distinct scripts (SHA-256) with at least one proof produced and checked",
+             "evaluations = recorded lines; non-trivial = distinct scripts (SHA-256) with at least one proof that was due (provable input)",
         assumptions=[
             "SHA-256 is an external primitive called by TLC (IOUtils!IOExec -> python3 hashlib); everything else of the bridge "
             "algorithm (IAVL leaf/inner layouts, varints, Result protobuf encoding, multistore leaf and the fixed L R R R L "
